@@ -105,7 +105,7 @@ def sync_run(prop, tier, seed, kinds, replay_path):
             c.tlc_must_pass(r, "MC_Sync " + tag)
         c.log("  tlc sync %s: %d distinct states %.1fs" % (tag, r.distinct, r.wall))
         runs.append(r)
-    n_each = 3000 if tier == "quick" else 20000
+    n_each = 3000 if tier == "quick" else 12000      # (27 families: 20000 each took 75 minutes of replay - measured)
     # generation (TLC, a few workers each) of the families runs three at a time; replays follow one after the other
     from concurrent.futures import ThreadPoolExecutor
     fams = families(tier, F)
